@@ -70,7 +70,22 @@ pub fn all() -> Vec<Prop> {
 /// crash points, ...).  Each property module that needs one adds an arm here.
 pub fn helper_main(args: &[String]) -> i32 {
     match args.first().map(|s| s.as_str()) {
+<<<<<<< HEAD
         Some("fault-save") => crate::gen::faultsave::helper_fault_save(&args[1..]),
+=======
+        // C14/C15: vectors of the reference hash iterations, compared with Python hashlib
+        // by pytools/offcrypto_selftest.py
+        Some("offcrypto-vectors") => {
+            if let Err(e) = crate::model::offcrypto::internal_selftest() {
+                eprintln!("offcrypto self-test failed: {}", e);
+                return 2;
+            }
+            for v in crate::model::offcrypto::selftest_vectors() {
+                println!("{}", v);
+            }
+            0
+        }
+>>>>>>> ag-crypto
         _ => {
             eprintln!("unknown helper {:?}", args);
             2
